@@ -53,7 +53,7 @@ def check_c04(sess, st, res, cfg):
     return None
 
 
-class C04(E5Reviews):
+class C04Base(E5Reviews):
     ID = 'C04'
     RULE = ('one evaluation = one seeded history of reviews (approve, '
             'request changes, dismiss, comment-review) and option comments '
@@ -69,3 +69,10 @@ class C04(E5Reviews):
 
     def checks(self):
         return [check_c04]
+
+
+from .taps import TapMixin, ReviewTap  # noqa: E402
+
+
+class C04(TapMixin, C04Base):
+    TAP_CLASS = ReviewTap
